@@ -64,13 +64,13 @@ pub fn build(id: &str, tier: Tier) -> Option<Check> {
         "C04" => Check {
             id: "C04",
             jobs: vec![
-                bfs(hub("c04-nofee", |h| { h.arm.c04 = true; h.with_rewards = true; h.with_transfers = true; h.seeds = if q { vec!["funded", "slashed", "rewarded"] } else { vec!["funded", "slashed", "rewarded", "inflight", "three_vals"] }; h.budget = tier.pick(1, 2); }), tier.pick(4, 5), secs),
+                bfs(hub("c04-nofee", |h| { h.arm.c04 = true; h.with_rewards = true; h.with_transfers = true; h.with_burn_from = true; h.seeds = if q { vec!["funded", "slashed", "rewarded", "allowances"] } else { vec!["funded", "slashed", "rewarded", "inflight", "three_vals", "allowances"] }; h.budget = tier.pick(1, 2); }), tier.pick(4, 5), secs),
                 bfs(hub("c04-pegfee", |h| { h.arm.c04 = true; h.peg_fee = "0.01"; h.seeds = vec!["slashed"]; h.with_registry = true; }), tier.pick(4, 5), secs),
                 bfs(hub("c04-big", |h| { h.arm.c04 = true; h.big = true; h.with_rewards = true; h.bond_amounts = vec![1_000_000_007, 1_000_000_000_000_000_000]; h.seeds = vec!["slashed", "rewarded"]; h.with_withdraw = false; h.budget = 0; }), tier.pick(3, 4), secs),
             ],
             rule: "every non-slash transition of the hub-core exploration compares both State-query exchange rates before and after (exact Decimal comparison) whenever the token has claims on both sides; non-trivial = a transition where a rate was compared".into(),
             assumptions: envelope(),
-            essential: vec!["c04_bsei_rate_compared", "c04_stsei_rate_compared", "c04_rebond_checked"],
+            essential: vec!["c04_bsei_rate_compared", "c04_stsei_rate_compared", "c04_rebond_checked", "c04_allowance_burn_compared"],
         },
         "C05" => Check {
             id: "C05",
